@@ -190,6 +190,34 @@ const (
 	no
 )
 
+// branchFact: what the edge from->to (and the single-predecessor chain above from) says
+// about boolean v: if a block on that chain ends in `if v` and is left on a known side.
+func branchFact(v ssa.Value, from, to *ssa.BasicBlock) tri {
+	if t, ok := v.Type().Underlying().(*types.Basic); !ok || t.Kind() != types.Bool {
+		return unknown
+	}
+	for depth := 0; depth < 8 && from != nil; depth++ {
+		if iff, ok := from.Instrs[len(from.Instrs)-1].(*ssa.If); ok && from.Succs[0] != from.Succs[1] {
+			cond, pos := iff.Cond, true
+			if n, isNot := cond.(*ssa.UnOp); isNot && n.Op == token.NOT {
+				cond, pos = n.X, false
+			}
+			if cond == v {
+				side := from.Succs[0] == to
+				if side == pos {
+					return yes
+				}
+				return no
+			}
+		}
+		if len(from.Preds) != 1 {
+			return unknown
+		}
+		from, to = from.Preds[0], from
+	}
+	return unknown
+}
+
 func not(t tri) tri {
 	switch t {
 	case yes:
@@ -288,7 +316,9 @@ func threadOne(fn *ssa.Function) bool {
 			}
 			in, isInstr := v.(ssa.Instruction)
 			if !isInstr || in.Block() != C {
-				return unknown
+				// a boolean that a branch on the way in has already tested: the edge (or the
+				// chain of single-predecessor blocks behind it) leaves that branch on a known side
+				return branchFact(v, C.Preds[i], C)
 			}
 			switch x := v.(type) {
 			case *ssa.UnOp:
@@ -795,6 +825,36 @@ func cleanup(fn *ssa.Function) {
 					}
 				}
 			}
+		}
+	}
+	// `if !x goto A else B` (the negation used by nothing else) is `if x goto B else A`:
+	// what an expanded boolean helper leaves behind when its caller wrote `!helper(...)`
+	if onlyTouched[fn] {
+		for _, b := range fn.Blocks {
+			if len(b.Instrs) == 0 || len(b.Succs) != 2 || b.Succs[0] == b.Succs[1] {
+				continue
+			}
+			iff, ok := b.Instrs[len(b.Instrs)-1].(*ssa.If)
+			if !ok {
+				continue
+			}
+			n, isNot := iff.Cond.(*ssa.UnOp)
+			if !isNot || n.Op != token.NOT || n.Block() != b || n.Referrers() == nil || len(*n.Referrers()) != 1 {
+				continue
+			}
+			if _, inlined := n.X.(*ssa.BinOp); !inlined {
+				continue
+			}
+			iff.Cond = n.X
+			b.Succs[0], b.Succs[1] = b.Succs[1], b.Succs[0]
+			// drop the negation
+			var keep []ssa.Instruction
+			for _, in := range b.Instrs {
+				if in != ssa.Instruction(n) {
+					keep = append(keep, in)
+				}
+			}
+			b.Instrs = keep
 		}
 	}
 	for again := true; again; {
